@@ -98,6 +98,8 @@ def strategy_(draw, tier):
             if d.chance(0.15):
                 k = d.randint(2, len(p) - 1)
                 p = p[:k] + '*' + p[k + 1:]
+            if d.chance(0.12):
+                p = p + 'X'       # 3'-incomplete CDS (cds_end_NF): the last residue is unknown
             t['protein'] = p
     if d.chance(0.35):
         ref['extra_proteins'] = [[d.randint(0, 4), f'ENSP0000008888{i}.1', f'ENST0000008888{i}.1',
